@@ -231,6 +231,26 @@ func runC09(w *World, r *Report) {
 
 	r.check(loadDagSrcs[loadDagDst+".LeftParentHash"] && loadDagSrcs[loadDagDst+".RightParentHash"], "edge-binding", "LoadDag/both-parents-linked", "-", "the edges added for a loaded vertex start at its left and at its right declared parent", fmt.Sprintf("sources %v", loadDagSrcs))
 
+	// the link to a declared parent is attempted whatever the graph holds: AddEdge's own failure is the test for a missing parent
+	if f := w.fx(r, "accountant", "AccountingBook", "LoadDag"); f != nil {
+		for _, ed := range deepCalls(f.fn, byName(nAddEdge), deepDepth) {
+			host := ed.c.Parent()
+			_, a := callArgs(ed.c)
+			src := strings.Join(hashElemOrigins(a[0]), ",")
+			gated := ""
+			for _, lk := range callsTo(host, nGetVertex, dagM("IsLeaf"), dagM("IsRoot"), dagM("GetParents"), dagM("GetChildren")) {
+				_, la := callArgs(lk)
+				if len(la) == 0 || strings.Join(hashElemOrigins(la[0]), ",") != src {
+					continue
+				}
+				if behind(ed.c.(ssa.Instruction), passErrNil(lk)) {
+					gated = shortCallee(lk)
+				}
+			}
+			r.check(gated == "", "edge-binding", "LoadDag/link-not-gated-by-lookup", lineOf(w, ed.c), "every declared parent of a loaded vertex is linked (or the load fails): no lookup decides to skip the link", "AddEdge is reached only when "+gated+" found the parent: a vertex whose parent is neither live nor checkpointed is accepted as an extra root")
+		}
+	}
+
 	// 3. roll back the new vertex when linking fails
 	r.rule("rollback-vertex", "after a successful AddVertexByID every path to an error return passes DeleteVertex(new vertex)", 2)
 	for _, fnName := range []string{"addLeafMemorized", "CreateLeaf"} {
@@ -1189,6 +1209,13 @@ func runC13(w *World, r *Report) {
 			why = "argument does not originate from the buffer subscription"
 		}
 		r.check(ok, "retry-reenters-admission", "runLeafSubscriber", w.Pos(rl.fn.Pos()), "replayed vertices take the normal admission path", why)
+		// the replay runs under the ledger's own long-lived context (that of the loop), not under one remembered from the
+		// delivery: a request context is over when the delivery returned, and a cancelled validation deletes the parent
+		for _, c := range cs {
+			_, a := callArgs(c)
+			own := len(rl.fn.Params) > 1 && len(a) > 0 && sameVal(a[0], rl.fn.Params[1])
+			r.check(own, "retry-reenters-admission", "runLeafSubscriber/replay-context", lineOf(w, c), "the replay is admitted under the subscriber loop's own context", "context argument is "+pathOf(a[0]))
+		}
 		direct := len(rl.calls(nAddVertexByID, nAddEdge))
 		r.check(direct == 0, "retry-reenters-admission", "runLeafSubscriber/no-direct-insert", w.Pos(rl.fn.Pos()), "the retry loop never touches the DAG itself", fmt.Sprintf("%d direct DAG calls", direct))
 	}
